@@ -2,6 +2,7 @@ package core
 
 import (
 	"fmt"
+	"go/token"
 	"go/types"
 	"reflect"
 	"sort"
@@ -133,7 +134,7 @@ func unexportedName(fn *ssa.Function) bool {
 
 // inlinable reports whether calls of h may be replaced by its body.
 func inlinable(h *ssa.Function, baseline map[string]bool, allowDefers bool) bool {
-	if h == nil || !InModule(h) || len(h.Blocks) == 0 || h.Parent() != nil || h.Synthetic != "" || !unexportedName(h) || baseline[baselineKey(FuncName(h))] {
+	if h == nil || !InModule(h) || len(h.Blocks) == 0 || h.Parent() != nil || h.Synthetic != "" || baseline[baselineKey(FuncName(h))] {
 		return false
 	}
 	if len(baseline) == 0 {
@@ -193,7 +194,7 @@ func (p *Prog) InlineNewHelpers(baseline map[string]bool) []string {
 						h := call.Call.StaticCallee()
 						// a callee with deferred calls can only be inlined where the call is in tail position of a
 						// caller that defers nothing itself: the deferred calls then run at the same point
-						if h == fn || !inlinable(h, baseline, tailCall(fn, b, i, call)) || p.FuncInOverlay(h) || p.FuncInOverlay(fn) || recursiveWithout(h, fn) {
+						if h == fn || !inlinable(h, baseline, tailCall(fn, b, i, call) || lowerableDefers(h) != nil) || p.FuncInOverlay(h) || p.FuncInOverlay(fn) || recursiveWithout(h, fn) {
 							continue
 						}
 						inlineCall(fn, b, i, call, h)
@@ -209,7 +210,7 @@ func (p *Prog) InlineNewHelpers(baseline map[string]bool) []string {
 			if fnChanged {
 				finishFunction(fn)
 				for i := 0; i < 600; i++ {
-					if !(threadPhiBranches(fn) || threadReturns(fn) || fuseBlocks(fn)) {
+					if !(forwardLocalStores(fn) || threadPhiBranches(fn) || threadReturns(fn) || fuseBlocks(fn)) {
 						break
 					}
 					finishFunction(fn)
@@ -244,24 +245,14 @@ func tailCall(fn *ssa.Function, b *ssa.BasicBlock, idx int, call *ssa.Call) bool
 	}
 	for _, in := range b.Instrs[idx+1:] {
 		switch x := in.(type) {
-		case *ssa.Extract:
-			if x.Tuple != ssa.Value(call) {
-				return false
+		case *ssa.Extract, *ssa.Convert, *ssa.ChangeType, *ssa.Return, *ssa.DebugRef:
+			// pure: the callee's deferred calls run, after inlining, behind these instead of before them, which
+			// nothing can observe
+		case *ssa.BinOp:
+			switch x.Op {
+			case token.QUO, token.REM, token.SHL, token.SHR:
+				return false // may panic
 			}
-		case *ssa.Return:
-			for _, rv := range x.Results {
-				if rv == ssa.Value(call) {
-					continue
-				}
-				if ex, ok := rv.(*ssa.Extract); ok && ex.Tuple == ssa.Value(call) {
-					continue
-				}
-				if _, isC := rv.(*ssa.Const); isC {
-					continue
-				}
-				return false
-			}
-		case *ssa.DebugRef:
 		default:
 			return false
 		}
@@ -338,6 +329,7 @@ func inlineCall(fn *ssa.Function, b *ssa.BasicBlock, idx int, call *ssa.Call, h 
 		bmap[hb] = nb
 		nblocks = append(nblocks, nb)
 	}
+	lower := lowerableDefers(h)
 	type retInfo struct {
 		block   *ssa.BasicBlock
 		results []ssa.Value
@@ -354,6 +346,27 @@ func inlineCall(fn *ssa.Function, b *ssa.BasicBlock, idx int, call *ssa.Call, h 
 		}
 		for _, in := range hb.Instrs {
 			if _, isDbg := in.(*ssa.DebugRef); isDbg {
+				continue
+			}
+			if _, isD := in.(*ssa.Defer); isD && lower != nil {
+				continue
+			}
+			if _, isRD := in.(*ssa.RunDefers); isRD && lower != nil {
+				// the deferred calls, last one first, as ordinary calls where the helper returns
+				for k := len(lower) - 1; k >= 0; k-- {
+					c := &ssa.Call{Call: lower[k].Call}
+					c.Call.Args = append([]ssa.Value(nil), lower[k].Call.Args...)
+					res := lower[k].Call.Signature().Results()
+					var t types.Type = res
+					if res.Len() == 1 {
+						t = res.At(0).Type()
+					}
+					setRegisterType(c, t)
+					setUnexportedPos(c, lower[k].Pos())
+					setBlock(c, nb)
+					nb.Instrs = append(nb.Instrs, c)
+					cloned = append(cloned, c)
+				}
 				continue
 			}
 			if ret, isRet := in.(*ssa.Return); isRet {
@@ -465,6 +478,84 @@ func inlineCall(fn *ssa.Function, b *ssa.BasicBlock, idx int, call *ssa.Call, h 
 }
 
 // setRegisterType sets the (unexported) type of a value-producing instruction.
+// lowerableDefers returns the defer statements of h in execution order when each of them runs exactly once on every
+// path to every return (its block dominates all RunDefers and lies on no cycle), nil otherwise or when h defers
+// nothing. Such a helper behaves — panics aside — as if the deferred calls were made, last one first, where it
+// returns, which is how its inlined copy is written.
+func lowerableDefers(h *ssa.Function) []*ssa.Defer {
+	if h == nil {
+		return nil
+	}
+	var defers []*ssa.Defer
+	var runs []*ssa.BasicBlock
+	for _, b := range h.Blocks {
+		for _, in := range b.Instrs {
+			switch x := in.(type) {
+			case *ssa.Defer:
+				defers = append(defers, x)
+			case *ssa.RunDefers:
+				runs = append(runs, b)
+			}
+		}
+	}
+	if len(defers) == 0 {
+		return nil
+	}
+	onCycle := func(b *ssa.BasicBlock) bool {
+		seen := map[*ssa.BasicBlock]bool{}
+		var st []*ssa.BasicBlock
+		st = append(st, b.Succs...)
+		for len(st) > 0 {
+			x := st[len(st)-1]
+			st = st[:len(st)-1]
+			if x == b {
+				return true
+			}
+			if seen[x] {
+				continue
+			}
+			seen[x] = true
+			st = append(st, x.Succs...)
+		}
+		return false
+	}
+	for _, d := range defers {
+		if onCycle(d.Block()) {
+			return nil
+		}
+		for _, rb := range runs {
+			if rb == h.Recover {
+				continue
+			}
+			if !d.Block().Dominates(rb) && d.Block() != rb {
+				return nil
+			}
+		}
+	}
+	sort.SliceStable(defers, func(i, j int) bool {
+		a, b := defers[i], defers[j]
+		if a.Block() == b.Block() {
+			for _, in := range a.Block().Instrs {
+				if in == ssa.Instruction(a) {
+					return true
+				}
+				if in == ssa.Instruction(b) {
+					return false
+				}
+			}
+		}
+		return a.Block().Dominates(b.Block())
+	})
+	return defers
+}
+
+func setUnexportedPos(c *ssa.Call, pos token.Pos) {
+	rv := reflect.ValueOf(c).Elem()
+	reg := rv.FieldByName("register")
+	f := reg.FieldByName("pos")
+	reflect.NewAt(f.Type(), unsafe.Pointer(f.UnsafeAddr())).Elem().Set(reflect.ValueOf(pos))
+}
+
 func setRegisterType(v ssa.Value, t types.Type) {
 	rv := reflect.ValueOf(v).Elem()
 	reg := rv.FieldByName("register")
@@ -808,6 +899,13 @@ func threadPhiBranches(fn *ssa.Function) bool {
 					return false
 				}
 			}
+			return true
+		}
+		// Full split: every predecessor decides the branch, both targets are entered from C only, and what C defines
+		// is used only below one of the targets. C then disappears: each predecessor goes straight to its target,
+		// and the φs of C are replaced below a target by that predecessor's input (or by a φ over the inputs of
+		// the predecessors that go there).
+		if fullSplit(fn, c, phis, iff, decide) {
 			return true
 		}
 		changed := false
@@ -1194,4 +1292,207 @@ func cmpRange(op string, lo, hi, k int64) (holds, known bool) {
 		}
 	}
 	return false, false
+}
+
+// forwardLocalStores replaces a load of a local that does not escape (its address is only stored through and loaded
+// from) by the value stored into it earlier in the same block. go/ssa keeps the results of a function that defers in
+// such locals (a deferred closure may change them); in an inlined copy whose deferred calls were lowered they are
+// plain temporaries.
+func forwardLocalStores(fn *ssa.Function) bool {
+	// locals whose address escapes
+	escapes := map[*ssa.Alloc]bool{}
+	var rands []*ssa.Value
+	for _, b := range fn.Blocks {
+		for _, in := range b.Instrs {
+			rands = in.Operands(rands[:0])
+			for _, op := range rands {
+				al, ok := (*op).(*ssa.Alloc)
+				if !ok {
+					continue
+				}
+				switch x := in.(type) {
+				case *ssa.Store:
+					if x.Addr == ssa.Value(al) && x.Val != ssa.Value(al) {
+						continue
+					}
+				case *ssa.UnOp:
+					if x.Op == token.MUL {
+						continue
+					}
+				case *ssa.DebugRef:
+					continue
+				}
+				escapes[al] = true
+			}
+		}
+	}
+	for _, af := range fn.AnonFuncs {
+		for _, fv := range af.FreeVars {
+			_ = fv
+		}
+	}
+	for _, b := range fn.Blocks {
+		for _, in := range b.Instrs {
+			if mc, ok := in.(*ssa.MakeClosure); ok {
+				for _, bd := range mc.Bindings {
+					if al, ok := bd.(*ssa.Alloc); ok {
+						escapes[al] = true
+					}
+				}
+			}
+		}
+	}
+	changed := false
+	for _, b := range fn.Blocks {
+		last := map[*ssa.Alloc]ssa.Value{}
+		var out []ssa.Instruction
+		for _, in := range b.Instrs {
+			switch x := in.(type) {
+			case *ssa.Store:
+				if al, ok := x.Addr.(*ssa.Alloc); ok && !al.Heap && !escapes[al] {
+					last[al] = x.Val
+				}
+			case *ssa.UnOp:
+				if al, ok := x.X.(*ssa.Alloc); ok && x.Op == token.MUL && !al.Heap && !escapes[al] {
+					if v, has := last[al]; has {
+						// replace every use of the load
+						for _, bb := range fn.Blocks {
+							for _, in2 := range bb.Instrs {
+								rands = in2.Operands(rands[:0])
+								for _, op := range rands {
+									if *op == ssa.Value(x) {
+										*op = v
+									}
+								}
+							}
+						}
+						changed = true
+						continue
+					}
+				}
+			}
+			out = append(out, in)
+		}
+		b.Instrs = out
+	}
+	return changed
+}
+
+func fullSplit(fn *ssa.Function, c *ssa.BasicBlock, phis []*ssa.Phi, iff *ssa.If, decide func(int) int) bool {
+	dec := make([]int, len(c.Preds))
+	seenPred := map[*ssa.BasicBlock]bool{}
+	for i := range c.Preds {
+		dec[i] = decide(i)
+		if dec[i] < 0 || seenPred[c.Preds[i]] || c.Preds[i] == c {
+			return false
+		}
+		seenPred[c.Preds[i]] = true
+	}
+	for _, t := range c.Succs {
+		if len(t.Preds) != 1 || t == c {
+			return false
+		}
+		for _, in := range t.Instrs {
+			if _, isP := in.(*ssa.Phi); isP {
+				return false
+			}
+		}
+	}
+	defined := map[ssa.Value]bool{}
+	for _, ph := range phis {
+		defined[ph] = true
+	}
+	if bo, isB := iff.Cond.(*ssa.BinOp); isB && bo.Block() == c {
+		defined[bo] = true
+	}
+	// where are C's values used?
+	region := func(b *ssa.BasicBlock) int {
+		for k, t := range c.Succs {
+			if t == b || t.Dominates(b) {
+				return k
+			}
+		}
+		return -1
+	}
+	var rands []*ssa.Value
+	for _, b := range fn.Blocks {
+		if b == c {
+			continue
+		}
+		for _, in := range b.Instrs {
+			rands = in.Operands(rands[:0])
+			for _, op := range rands {
+				if !defined[*op] {
+					continue
+				}
+				if _, isBo := (*op).(*ssa.BinOp); isBo {
+					return false // the comparison itself is used elsewhere
+				}
+				if ph, isPhi := in.(*ssa.Phi); isPhi {
+					_ = ph
+					return false // flows into a later φ: the edge it arrives on is not one of the targets' regions
+				}
+				if region(b) < 0 {
+					return false
+				}
+			}
+		}
+	}
+	for k, t := range c.Succs {
+		var group []int
+		for i := range c.Preds {
+			if dec[i] == k {
+				group = append(group, i)
+			}
+		}
+		repl := map[ssa.Value]ssa.Value{}
+		var newPhis []ssa.Instruction
+		for _, ph := range phis {
+			switch len(group) {
+			case 0:
+			case 1:
+				repl[ph] = ph.Edges[group[0]]
+			default:
+				np := &ssa.Phi{Comment: ph.Comment}
+				for _, i := range group {
+					np.Edges = append(np.Edges, ph.Edges[i])
+				}
+				setRegisterType(np, ph.Type())
+				setBlock(np, t)
+				newPhis = append(newPhis, np)
+				repl[ph] = np
+			}
+		}
+		if len(group) > 0 {
+			for _, b := range fn.Blocks {
+				if b == c || region(b) != k {
+					continue
+				}
+				for _, in := range b.Instrs {
+					rands = in.Operands(rands[:0])
+					for _, op := range rands {
+						if nv, ok := repl[*op]; ok {
+							*op = nv
+						}
+					}
+				}
+			}
+		}
+		t.Preds = nil
+		for _, i := range group {
+			pr := c.Preds[i]
+			t.Preds = append(t.Preds, pr)
+			for j, sc := range pr.Succs {
+				if sc == c {
+					pr.Succs[j] = t
+				}
+			}
+		}
+		t.Instrs = append(newPhis, t.Instrs...)
+	}
+	c.Preds = nil
+	for _, ph := range phis {
+		ph.Edges = nil
+	}
+	return true
 }
